@@ -6,7 +6,7 @@ from mkprops import write
 IMP = """From Coq Require Import List Arith Bool NArith.
 From FFSM2 Require Import Model.TaskList Model.BitArray Model.BitStream Model.Plan Model.Ancestors Model.Machine
   Proofs.BitArrayProofs Proofs.TaskListProofs Proofs.TaskListRun Proofs.PlanProofs Proofs.MachineFrame Proofs.MachinePlan Proofs.MachineLife Proofs.GuardProofs Proofs.CycleProofs Proofs.PlanStep
-  Proofs.SerialProofs Proofs.LogProofs Proofs.MachineTop Model.Multi Generated.InitFacts Proofs.ConstructProofs Proofs.LifeMonitor Proofs.ActivationRounds Proofs.IndexSafety Proofs.FeatureProofs Model.Script Proofs.Contract Proofs.Histories Proofs.StatusBits.
+  Proofs.SerialProofs Proofs.LogProofs Proofs.MachineTop Model.Multi Generated.InitFacts Proofs.ConstructProofs Proofs.LifeMonitor Proofs.ActivationRounds Proofs.IndexSafety Proofs.FeatureProofs Model.Script Proofs.Contract Proofs.Histories Proofs.StatusBits Proofs.Worlds.
 Import ListNotations."""
 
 VOC = ("Vocabulary: Ready cfg s a = the machine is at a point where requests are processed (or between API calls) with state a < n active, "
@@ -270,6 +270,18 @@ _EPS = "over whole histories: every update(), react(), immediateChangeTo() and i
 for _pid in ("C02", "C03", "C04", "C11"):
     SPECS[_pid][1].append(("%s_every_processing_step_of_every_history" % _pid, "every_processing_step_of_every_history", _EPS))
 SPECS["C07"][1].insert(-1, ("C07_every_processing_step_of_every_history", "every_processing_step_of_every_history", _EPS))
+
+SPECS["C01"][1].extend([
+   ("C01_every_instance_of_every_accepted_script_has_the_invariant", "wrun_inv", "several instances (construction, destruction, copy construction, load from another instance's save(), API calls): if the extracted contract test first_violation accepts a script - the model runner evaluates it for every script of the correspondence check - then every live instance satisfies the machine invariant (with well-formed report bits) afterwards, copies and loaded instances included"),
+   ("C01_every_call_of_every_accepted_script_is_in_the_domain", "every_call_of_every_script", "... and every API call the script makes is made on an instance with the invariant and is in_contract there: the per-call statements of C01..C12 and C16 apply to every call of every script the check runs"),
+])
+SPECS["C17"][1].extend([
+   ("C17_copies_and_loaded_instances_keep_the_invariant", "wrun_inv", "in every in-contract multi-instance history every live instance - original, copy, copy of a copy, instance loaded from another - satisfies the machine invariant"),
+   ("C17_one_operation_on_the_world", "wstep_inv", ""),
+])
+
+SPECS["C12"][1].append(("C12_every_load_between_instances_of_every_script", "every_load_between_instances", "several instances: j.save(buffer); i.load(buffer) at any point of any accepted multi-instance script (the instances may be copies, may have been loaded before, may have gone through any calls) leaves instance i with instance j's activity by exactly the lifecycle change needed, enter/exit/reenter callbacks only"))
+SPECS["C17"][1].append(("C17_every_copy_equals_its_original", "every_copy_equals_its_original", "copy construction at any point of any accepted multi-instance script: the new instance's core is the original's (so active state, isActive table, outstanding request, previous transition, plan and serialized form are equal: observe), no callback ran on it, and the original is untouched"))
 
 if __name__ == "__main__":
     which = sys.argv[1:] or sorted(SPECS)
